@@ -11,6 +11,8 @@ import GomlVerif.Driver.C19
 import GomlVerif.Driver.C13
 import GomlVerif.Driver.C16
 import GomlVerif.Driver.SrcRun
+import GomlVerif.Driver.C18
+import GomlVerif.Driver.C14
 import GomlVerif.Driver.C09
 
 def main (args : List String) : IO UInt32 := do
@@ -30,5 +32,7 @@ def main (args : List String) : IO UInt32 := do
   | ["c13"] => Goml.Driver.C13.main; return 0
   | ["c16"] => Goml.Driver.C16.main; return 0
   | ["srcsem"] => Goml.Driver.SrcRun.main; return 0
+  | ["c18"] => Goml.Driver.C18.main; return 0
+  | ["c14"] => Goml.Driver.C14.main; return 0
   | ["c09"] => Goml.Driver.C09.main; return 0
   | _ => IO.eprintln "usage: gomlmodel <c05|…> < lines"; return 2
